@@ -105,9 +105,10 @@ func Cookies(cookies []*http.Cookie) event.Option {
 func (s *httpService) Handle(ctx context.Context, conn net.Conn) error {
 	id := xid.New()
 
-	for {
-		br := bufio.NewReader(conn)
+	// one buffered reader per connection: a reader per request loses pipelined bytes
+	br := bufio.NewReader(conn)
 
+	for {
 		req, err := http.ReadRequest(br)
 		if err == io.EOF {
 			return nil
